@@ -9,6 +9,8 @@ for d in seeded/*/ mutants/*/; do
     C01-d|C09-c) p="${n%%-*} C10";;   # argument-slice aliasing: the property that forbids it is C10
     C03-c) p="C03 C10 C06";; C06-d) p="C06 C10";; C06-c) p="C06 C05";; C10-c) p="C10 C06";; C07-d) p="C07 C01 C08";; C16-c|C14-c) p="${n%%-*} C05";;
     C13-c) p="C13 C01";; C11-c) p="C11 C13";; C17-c) p="C17 C03";; C15-d) p="C15 C02";; C12-c) p="C12 C05";; C16-d) p="C16 C18";; C08-d|C01-c) p="${n%%-*} C08";;
+    C06-f|C04-f|C03-e) p="${n%%-*} C10";; C04-e) p="C04 C10 C09";; C05-f|C12-e) p="${n%%-*} C20";; C15-f|C02-f) p="${n%%-*} C08";; C13-e) p="C01";;
+    C16-f|C11-e|C08-e) p="${n%%-*} C01";; C10-f) p="C10 C08";; C01-e) p="C01 C02 C15";;
     C*) p=${n%%-*};;
     revert-fix1) p="C01 C13 C15 C11";; revert-fix2) p=C02;; revert-fix3) p=C02;; revert-fix4) p="C02 C13 C15";;
     revert-fix5) p=C10;; revert-fix6) p="C14 C09";; revert-fix7) p=C09;; revert-fix8) p=C09;; revert-fix9) p="C15 C02";;
